@@ -191,10 +191,11 @@ struct Out {
 }
 
 fn case_bsearch(r: &mut Rng) -> Out {
-    let n = match r.below(10) {
+    let n = match r.below(12) {
         0 => 0,
         1 => 1,
         2 => 2,
+        3 => r.range(41, 300) as usize,   // more iterations of the loop
         _ => r.range(3, 40) as usize,
     };
     let alphabet: u64 = *r.pick(&[3, 8, 50, 1 << 20, u64::MAX]);
